@@ -53,3 +53,16 @@ func TestPptxTableCellKeepsNonASCII(t *testing.T) {
 		t.Errorf("invalid UTF-8: %q", md)
 	}
 }
+
+// A carriage return is a line ending for a Markdown parser (CommonMark 2.1: LF, CR or CR LF).
+func TestTableCellCarriageReturn(t *testing.T) {
+	for _, text := range []string{"a\rb", "a\r\nb"} {
+		tb := model.NewTable(2, 2)
+		tb.Rows[0][0].Text, tb.Rows[0][1].Text = "h1", "h2"
+		tb.Rows[1][0].Text, tb.Rows[1][1].Text = text, "c"
+		md := tb.ToMarkdown()
+		if strings.Contains(md, "\r") {
+			t.Errorf("cell %q: the Markdown table holds a carriage return, the row is cut there: %q", text, md)
+		}
+	}
+}
